@@ -89,6 +89,9 @@ let render np (s : state) : string =
       | CSkip (pos, len) -> Printf.sprintf "%s:s%s/%s" (sn p) (sn pos) (sn len)) cs));
   Buffer.add_string b ";conn=";
   Buffer.add_string b (String.concat "," (List.map string_of_int (List.sort compare (List.map in_ s.conns))));
+  Buffer.add_string b ";fc=";
+  let fc = List.sort compare (List.filter (fun (_, c) -> c > 0) (List.map (fun (p, c) -> (in_ p, in_ c)) s.failc)) in
+  Buffer.add_string b (String.concat "," (List.map (fun (p, c) -> Printf.sprintf "%d:%d" p c) fc));
   Buffer.contents b
 
 (* snapshot -> [(piece, [(block no, queued peers)])] *)
@@ -133,9 +136,10 @@ let () = each_line (fun line ->
       let contents = Array.init np content in
       let expected_tab = Array.map sha1_n contents in
       let none = not (String.contains have '1') in
+      let pre = (try int_of_string (List.assoc "pre" kvs) with Not_found -> 0) in
       let st0 = List.init np (fun i ->
         if have.[i] = '1' then contents.(i)
-        else if none then List.init (psz i) (fun _ -> byte_tab.(0))
+        else if none then List.init (psz i) (fun _ -> byte_tab.(if pre > 0 then 0xee else 0))
         else (match contents.(i) with x :: r -> byte_tab.((in_ x) lxor 0x5a) :: r | [] -> [])) in
       let c0 = List.filter_map (fun i -> if have.[i] = '1' then Some (ni i) else None) (List.init np (fun i -> i)) in
       let expected i = let k = in_ i in if k < np then expected_tab.(k) else [] in
@@ -170,7 +174,15 @@ let () = each_line (fun line ->
                 incr syn; step (Printf.sprintf "R:%s:%d:%d" p idx k) (ERel (n_of_string p, ni idx, ni k)) end) cur;
             List.iter (fun p -> if not (List.mem p cur) then begin
                 incr syn; step (Printf.sprintf "I:%s:%d:%d" p idx k) (EIns (n_of_string p, ni idx, ni k)) end) q) blks) want;
-        (* queued transfers of pieces that left the list are gone with them; nothing to do *)
+        (* failed counters: DownloadMain::receive_corrupt_chunk calls *)
+        (match List.find_opt (fun f -> String.length f >= 3 && String.sub f 0 3 = "fc=") (String.split_on_char ';' snap) with
+         | Some f when String.length f > 3 ->
+             List.iter (fun pc -> match String.split_on_char ':' pc with
+               | [p; c] ->
+                   let have () = (match List.find_opt (fun (q, _) -> sn q = p) !s.failc with Some (_, k) -> in_ k | None -> 0) in
+                   while have () < int_of_string c do incr syn; step ("!:" ^ p) (ECorrupt (n_of_string p)) done
+               | _ -> ()) (String.split_on_char ',' (String.sub f 3 (String.length f - 3)))
+         | _ -> ());
         incr snaps;
         let r = render np !s in
         if r <> snap then raise (Reject (Printf.sprintf "%d S: model state differs from the snapshot: model %s  impl %s" !n r snap)) in
